@@ -26,6 +26,19 @@ def padded_deflate(data, minlen):
     return out[:-4]
 
 
+def short_deflate(data):
+    """A payload that inflates to `data` and whose last byte is the one that completes the output: zlib's own
+    sync-flush output minus its final (zero) byte, so no input is left when the last output byte appears.  (It leaves
+    the inflater inside a block header, so it is only used for messages after which the connection has to be aborted
+    anyway, never for messages that must be delivered.)"""
+    import zlib
+    c = zlib.compressobj(6, zlib.DEFLATED, -15)
+    full = c.compress(data) + c.flush(zlib.Z_SYNC_FLUSH)
+    q = full[:-5]
+    assert zlib.decompressobj(-15).decompress(q + b"\x00\x00\xff\xff") == data
+    return q
+
+
 def violations(deflate):
     """name -> function(session) -> bytes of the violating frame(s)."""
     deflate = deflate is True
@@ -44,6 +57,9 @@ def violations(deflate):
         v["inflates-over-limit"] = lambda s: s.frame(True, 2, wsh.Deflate().compress(b"z" * (LIMIT + 1)), rsv=0x40)
         # larger than the limit on the wire (padded with empty stored blocks) although it inflates to 10 bytes
         v["compressed-wire-over-limit"] = lambda s: s.frame(True, 2, padded_deflate(b"z" * 10, LIMIT + 40), rsv=0x40)
+        for extra in (1, 2, 5):
+            v["inflates-over-limit-short-encoding:+%d" % extra] = (lambda n: lambda s: s.frame(
+                True, 2, short_deflate(b"z" * n), rsv=0x40))(LIMIT + extra)
         v["inflates-far-over-limit"] = lambda s: s.frame(True, 2, wsh.Deflate().compress(b"z" * 100000), rsv=0x40)
     v["fragmented-ping"] = lambda s: s.frame(False, 9, b"a")
     v["fragmented-close"] = lambda s: s.frame(False, 8, b"")
@@ -55,6 +71,9 @@ def violations(deflate):
     v["orphan-continuation"] = lambda s: s.frame(True, 0, b"x")
     v["orphan-continuation-nonfinal"] = lambda s: s.frame(False, 0, b"x")
     v["data-inside-fragmented"] = lambda s: s.frame(False, 1, b"ab") + s.frame(True, 1, b"cd")
+    # a control frame between the fragments changes nothing: the message is still open
+    v["data-inside-fragmented-after-ping"] = lambda s: s.frame(False, 1, b"ab") + s.frame(True, 9, b"p") + s.frame(True, 1, b"cd")
+    v["data-inside-fragmented-after-pong"] = lambda s: s.frame(False, 2, b"ab") + s.frame(True, 10, b"") + s.frame(True, 2, b"cd")
     v["data-inside-empty-fragmented"] = lambda s: s.frame(False, 1, b"") + s.frame(True, 1, b"cd")
     v["data-inside-empty-fragmented-then-continuation"] = lambda s: (s.frame(False, 2, b"") + s.frame(True, 2, b"cd")
                                                                     + s.frame(True, 0, b"ef"))
